@@ -329,21 +329,23 @@ def iter_linear_fit(xy, uv, wxy=None, wuv=None,
     # clipping iterations:
     effective_nclip = 0
     for n in range(nclip):
-        resids = fit['resids']
-
         # redefine what pixels will be included in next iteration
         cutoff = nsigma * fit[sigstat]
 
-        nonclipped = np.linalg.norm(resids, axis=1) < cutoff
-        if np.count_nonzero(nonclipped) < minobj or nonclipped.all():
+        # points that are tested against the current fit: previously clipped
+        # points may re-enter the fit (when clip_accum is False) only if they
+        # pass the test against the current fit:
+        tested = mask if clip_accum else wmask
+        resids = (xy[tested] - np.dot(uv[tested], fit['matrix_ld'].T) -
+                  fit['shift_ld'])
+        new_mask = np.array(tested)
+        new_mask[tested] = np.linalg.norm(resids, axis=1) < cutoff
+        if (np.count_nonzero(new_mask) < minobj or
+                np.array_equal(new_mask, mask)):
             break
 
         effective_nclip += 1
-
-        prev_mask = mask
-        if not clip_accum:
-            mask = np.array(wmask)
-        mask[prev_mask] *= nonclipped
+        mask = new_mask
 
         wmxy = None if wxy is None else wxy[mask]
         wmuv = None if wuv is None else wuv[mask]
